@@ -19,6 +19,13 @@ SRC = os.path.realpath(SRC)
 if SRC not in sys.path:
     sys.path.insert(0, SRC)
 
+# The process time zone differs by shard (POSIX TZ strings, no tzdata needed): nothing ahbicht computes may depend on it
+TIME_ZONES = ["UTC0", "CET-1CEST,M3.5.0,M10.5.0/3", "PST8PDT,M3.2.0,M11.1.0", "IST-5:30", "NZST-12NZDT,M9.5.0,M4.1.0/3"]
+os.environ["TZ"] = TIME_ZONES[int(os.environ.get("VERIF_SHARD", "0") or 0) % len(TIME_ZONES)]
+import time as _time  # noqa: E402
+
+_time.tzset()
+
 warnings.simplefilter("ignore")
 if int(os.environ.get("VERIF_SHARD", "0") or 0) % 4 == 3:
     # every fourth shard runs with logging switched on at DEBUG level (a legal configuration of the host application):
@@ -46,6 +53,7 @@ if not os.path.realpath(ahbicht.__file__).startswith(SRC + os.sep):
     sys.exit(2)
 
 import inject  # noqa: E402
+from vlib import hostapp  # noqa: E402,F401  pylint:disable=unused-import  (namesakes of ahbicht's schema classes)
 from efoli import EdifactFormat, EdifactFormatVersion  # noqa: E402
 
 from ahbicht.content_evaluation.evaluationdatatypes import EvaluatableData, EvaluatableDataProvider  # noqa: E402
@@ -112,13 +120,38 @@ def loop() -> asyncio.AbstractEventLoop:
     return _LOOP
 
 
+FRESH_LOOPS = (int(os.environ.get("VERIF_SHARD", "0") or 0) // 4) % 2 == 1
+"""
+Shards 4-7 and 12-15 run every call on an event loop of its own (like an application that calls asyncio.run per request,
+or a test runner with one loop per test); the others keep one loop per process.  Objects that outlive a call - the
+injected evaluators, module level state - thus meet several loops.
+"""
+
+
+def run_fresh(coro):
+    """run a coroutine to completion on a new event loop, which is closed afterwards"""
+    global _LOOP  # pylint:disable=global-statement
+    previous, _LOOP = _LOOP, asyncio.new_event_loop()
+    try:
+        return _run_on(_LOOP, coro)
+    finally:
+        _LOOP.close()
+        _LOOP = previous
+
+
 def run(coro):
     """
-    Run a coroutine to completion on the process-wide loop (each run gets a copy of the current context).
+    Run a coroutine to completion on the process-wide loop (each run gets a copy of the current context) - or, in the
+    shards with FRESH_LOOPS, on a new loop.
     When one awaitable of an asyncio.gather raises (e.g. the documented NotImplementedError of the validation), its
     siblings keep running as orphaned tasks; they are cancelled and drained here so that no task outlives a case.
     """
-    event_loop = loop()
+    if FRESH_LOOPS:
+        return run_fresh(coro)
+    return _run_on(loop(), coro)
+
+
+def _run_on(event_loop, coro):
     try:
         return event_loop.run_until_complete(coro)
     finally:
